@@ -169,3 +169,45 @@ func (in *Interp) InstallErrorStubs() {
 		return []Value{ErrVal{Tag: "fmt.Errorf"}}, nil
 	}
 }
+
+// InstallBuilderStubs models strings.Builder written through fmt.Fprintf / WriteString.
+func (in *Interp) InstallBuilderStubs() {
+	get := func(v Value) map[string]Value {
+		switch x := v.(type) {
+		case *Obj:
+			if x != nil {
+				return x.Fields
+			}
+		case *Rec:
+			return x.Fields
+		}
+		return nil
+	}
+	appendTo := func(w Value, s string) {
+		if f := get(w); f != nil {
+			old, _ := f["__s"].(string)
+			f["__s"] = old + s
+		}
+	}
+	sprintf := in.Stubs["fmt.Sprintf"]
+	in.Stubs["fmt.Fprintf"] = func(in *Interp, _ Value, args []Value) ([]Value, error) {
+		out, err := sprintf(in, nil, args[1:])
+		if err != nil {
+			return nil, err
+		}
+		appendTo(args[0], out[0].(string))
+		return []Value{int64(0), nil}, nil
+	}
+	in.Stubs["strings.Builder.WriteString"] = func(in *Interp, recv Value, args []Value) ([]Value, error) {
+		s, _ := args[0].(string)
+		appendTo(recv, s)
+		return []Value{int64(len(s)), nil}, nil
+	}
+	in.Stubs["strings.Builder.String"] = func(in *Interp, recv Value, _ []Value) ([]Value, error) {
+		if f := get(recv); f != nil {
+			s, _ := f["__s"].(string)
+			return []Value{s}, nil
+		}
+		return []Value{""}, nil
+	}
+}
